@@ -16,6 +16,7 @@ PlanOf(c) ==
     [] c.fmt_plan \in {"fail_after_read", "slow_read"} -> "fail_after_read"
     [] c.fmt_plan = "fail_no_read" -> "fail_no_read"
     [] c.fmt_plan = "empty" -> "empty"
+    [] c.fmt_plan \in {"ok_no_read", "ok_partial_read"} -> "garbage_no_read"
     [] c.fmt_plan = "absent" -> "absent"
     [] OTHER -> "killed"
 SizeOfCase(c) == IF c.size_class = "large" THEN 3 ELSE 1
@@ -30,14 +31,14 @@ TInit ==
   /\ l = 1 /\ TLCSet(3, 1)
   /\ plan = "absent" /\ size = 1 /\ ppc = "done" /\ cpc = "none"
   /\ inPipe = 0 /\ inR = FALSE /\ inW = FALSE /\ outPipe = 0 /\ outW = FALSE
-  /\ toWrite = 0 /\ childRead = 0 /\ childOut = 0 /\ got = 0 /\ status = "running" /\ result = "pending"
+  /\ toWrite = 0 /\ childRead = 0 /\ childOut = 0 /\ got = 0 /\ garbage = FALSE /\ status = "running" /\ result = "pending"
 
 (* a new call starts: the model is reset to Format!Init for this call's plan and size *)
 TCase ==
   /\ l <= Len(Rec) /\ Ev.ev = "case" /\ ppc = "done" /\ Consume
   /\ plan' = PlanOf(Ev) /\ size' = SizeOfCase(Ev) /\ ppc' = "spawn" /\ cpc' = "none"
   /\ inPipe' = 0 /\ inR' = FALSE /\ inW' = FALSE /\ outPipe' = 0 /\ outW' = FALSE
-  /\ toWrite' = SizeOfCase(Ev) /\ childRead' = 0 /\ childOut' = 0 /\ got' = 0 /\ status' = "running" /\ result' = "pending"
+  /\ toWrite' = SizeOfCase(Ev) /\ childRead' = 0 /\ childOut' = 0 /\ got' = 0 /\ garbage' = FALSE /\ status' = "running" /\ result' = "pending"
 
 TSilent == (Parent \/ Child) /\ UNCHANGED l
 
